@@ -270,7 +270,8 @@ inline int harness_main(int argc, char **argv, const Check &c)
     {                                                                          \
         return "exitcode=77:detect_leaks=0:abort_on_error=0:"                  \
                "allocator_may_return_null=1:detect_stack_use_after_return=0:"  \
-               "detect_container_overflow=1:handle_segv=1:handle_abort=1";     \
+               "detect_container_overflow=1:handle_segv=1:handle_abort=1:"     \
+               "quarantine_size_mb=16:malloc_context_size=3";                  \
     }                                                                          \
     extern "C" __attribute__((used, visibility("default"))) const char        \
         *__ubsan_default_options()                                             \
